@@ -11,11 +11,15 @@ Open Scope N_scope.
    CTable: the code's cipherSuites rows and defaultCipherSuitesTLS13 (drift of the snapshot
      Randomized.utls_table).
    CConsts: the Go constants, in the order of [model_consts].
+   CDefaults: DefaultWeights (u_common.go:693) as 17 float64 bit patterns; CGen cases with
+     id.Weights == nil carry wbytes = [] and use the snapshot [default_wbits]; 8 bytes = all
+     17 weights equal.
    CRemove / CRC4 / CShuffled: the helpers called directly. *)
 Inductive case :=
 | CGen (v : variant) (wbytes : bytes) (server : bytes) (protos : list bytes) (s salted : bytes) (r : res spec)
 | CTable (rows : list (N * bool)) (tls13 : list N)
 | CConsts (vals : list N)
+| CDefaults (wbytes : bytes)
 | CRemove (st : bytes) (s : list N) (wbytes : bytes) (out : list N)
 | CRC4 (s out : list N)
 | CShuffled (st : bytes) (out : list N).
@@ -28,8 +32,18 @@ Fixpoint words_of (n : nat) (b : bytes) : list N :=
   | O => []
   | S k => match uint64 b with Some (w, r) => w :: words_of k r | None => [] end
   end.
+(* 0.7 0.4 0.4 0.63 0.59 0.51 0.9 0.71 0.46 0.62 0.74 0.46 0.75 0.77 0.0 0.5 0.33 *)
+Definition default_wbits : list N :=
+  [4604480259023595110; 4600877379321698714; 4600877379321698714; 4603849755075763241; 4603489467105573601;
+   4602768891165194322; 4606281698874543309; 4604570331016142520; 4601958243232267633; 4603759683083215831;
+   4604840546993784750; 4601958243232267633; 4604930618986332160; 4605110762971426980; 0;
+   4602678819172646912; 4599616371426034975].
 Definition weights_of (l : bytes) : option weights :=
-  match map fw_of_bits (words_of 17 l) with
+  let ws := match l with
+            | [] => default_wbits
+            | _ => if (length l =? 8)%nat then repeat (hd 0 (words_of 1 l)) 17 else words_of 17 l
+            end in
+  match map fw_of_bits ws with
   | [a; b; c; d; e; f; g; h; i; j; k; l0; m; n; o; p; q] => Some (Build_weights a b c d e f g h i j k l0 m n o p q)
   | _ => None
   end.
@@ -73,6 +87,7 @@ Definition check (c : case) : bool :=
                (map (fun r => (sr_id r, sr_tls12 r)) (t_suites utls_table))
       && list_eqb N.eqb tls13 (t_tls13 utls_table)
   | CConsts vals => list_eqb N.eqb vals model_consts
+  | CDefaults wb => list_eqb N.eqb (words_of 17 wb) default_wbits
   | CRemove st s wb out =>
       match run_ok (removeRandomCiphers rne s (fw_of_bits (hd 0 (words_of 1 wb)))) st with
       | Some l => list_eqb N.eqb l out
